@@ -1134,7 +1134,7 @@ func (h *histRun) checkQuiescent(final bool) {
 				// finding A: the client's copy is the stale snapshot the resource
 				// was re-sent with after Unsend; a later index does not fit it
 				v.Sig += ".afterUnsend"
-			} else if v.Prop == "C02" && (v.Sig == "strayEvent" || v.Sig == "dangling") && (h.hasNote("sub.unsend", c.CID, v.RID) || (v.Holder != "" && h.hasNote("sub.unsend", c.CID, v.Holder) && !h.worldHasRef(v.Holder, v.RID))) {
+			} else if v.Prop == "C02" && (v.Sig == "strayEvent" || v.Sig == "dangling" || v.Sig == "rootMissing") && (h.hasNote("sub.unsend", c.CID, v.RID) || (v.Holder != "" && h.hasNote("sub.unsend", c.CID, v.Holder) && (!h.worldHasRef(v.Holder, v.RID) || h.copyStale(rc, v.Holder)))) {
 				// finding A/E: the resource itself was un-sent, or the holder was
 				// re-sent with a stale snapshot whose reference the service's
 				// current state no longer has
@@ -1144,6 +1144,12 @@ func (h *histRun) checkQuiescent(final bool) {
 				v.Sig += ".afterUnsend"
 			} else if sr := rc.LostInStray[v.Holder]; v.Prop == "C02" && v.Holder != "" && sr != "" && h.hasNote("sub.unsend", c.CID, sr) {
 				v.Sig += ".afterUnsend"
+			}
+			if v.Prop == "C02" && !strings.Contains(v.Sig, ".after") && (rc.LostAfterGet[v.RID] || (v.Holder != "" && rc.LostAfterGet[v.Holder])) {
+				// consequence of finding K: the events flushed after a get response
+				// carried this resource; the client ignored them with their
+				// resources, the gateway counts the resource as sent
+				v.Sig += ".afterGet"
 			}
 			if v.Prop == "C02" && v.DropT > 0 && rc.TargetPendingAt(v.RID, v.DropT) {
 				v.Sig += ".droppedWhilePending"
@@ -1443,6 +1449,21 @@ func (h *histRun) hadDelete(rid string) bool {
 
 // worldHasRef reports whether the service's current state of holder has a
 // non-soft reference to rid.
+// copyStale reports whether the client's copy of a (non-query) resource
+// differs from the service's current state: with the hook note sub.unsend for
+// it, it is the stale snapshot it was re-sent with (finding A).
+func (h *histRun) copyStale(rc *RefClient, rid string) bool {
+	name, q := ridName(rid)
+	if q != "" || rc.Cache[rid] == nil {
+		return false
+	}
+	wr := h.w.Get(name)
+	if wr == nil || wr.Silent {
+		return false
+	}
+	return !JSONEqual(h.w.ClientState(name, rc.Ver), rc.State(rid))
+}
+
 func (h *histRun) worldHasRef(holder, rid string) bool {
 	name, _ := ridName(holder)
 	for _, r := range h.w.HardRefs(name) {
